@@ -211,6 +211,24 @@ CLAIMED = {
               'dependency graphs on <= 3 fields x present-subsets x orders in the thorough tier, randomly up to 6 fields.'),
         note=COMMON_NOTE + 'Setters are modelled by their result class (value / KeyError / other exception).',
         design='§6 C17'),
+    'C18': dict(
+        technique='Lean 4 proof, partial (schedule independence of the shared-state machine for every interleaving of its atomic actions; negations at the pre-repair atomicity) + correspondence of the machine with real shared histories + deterministic line-level scheduler and stress search on real threads',
+        text=('Model/Shared.lean: process-wide state (class-level cache of validated schemas, the schema objects callers share and that '
+              'expansion rewrites in place, the lazily created schema-validator class) and threads as sequences of atomic actions. '
+              'C18_independent / C18_same_as_alone: for every world with idempotent expansion and no key confusion, any number of threads, '
+              'any programs (constructions from shared objects, calls with child validators) and EVERY schedule, a terminated thread '
+              'produced exactly the sequential meaning of its program, in which neither the cache nor another thread occurs; '
+              'C18_invariant: the shared state stays sound. Negations by kernel-evaluated schedules at the finer atomicity of the code '
+              'before the repairs: C18_witness_expand (F18: shared `anyof_type` rule set ends as `anyof: []` or with three definitions), '
+              'C18_witness_lazy_class (F17), C18_needs_no_confusion (= F13). PARTIAL: the theorem holds at the atomicity of the model '
+              '(single dict/set operations atomic under the GIL, `expand` atomic under the expansion lock, class published complete); real '
+              'preemption is outside Lean. Tie: port `shared` (op-granular shared histories on a logging cache: outcomes, cache traffic, '
+              'cache contents, object contents = model run on tables measured alone); search on real threads: deterministic line-level '
+              'scheduler (1 and 2 preemptions over the yield points of cerberus/schema.py, lazy class absent/present, locks made '
+              'cooperative) and free-running threads with switch interval 1e-6 (2-8 threads): per-thread outcomes = outcomes alone. '
+              'Found and repaired F17 and F18 on the real code with 1-preemption schedules.'),
+        note=COMMON_NOTE + 'Atomicity of the modelled actions in CPython is assumed, supported by the scheduler search, not proved; free-threaded builds are out of scope. Hypotheses (idempotent expansion, no key confusion) are explicit: the second is violated by known findings F13a-e.',
+        design='§6 C18'),
 }
 
 WIP = 'not claimed yet: machinery for this property is still being built (see DESIGN.md roadmap)'
